@@ -11,7 +11,10 @@ Next == /\ i < Len(Recs)
            IN \* the documents are valid by construction (every reference defined, no recursion,
               \* kinds unique per rule): the compiler has to build a grammar from each
               PrintT(<<"VERDICT", ToJson([id |-> r.id,
+                        \* r.reject: a document that names a rule like the helper rule of a
+                        \* repetition it uses: the two cannot both exist, the compiler has to say so
                         bad |-> IF "err" \in DOMAIN r.g
-                                THEN {<<"valid_document_rejected", r.g.err, r.g.msg>>}
-                                ELSE BuilderDefects(r.doc, r.g)])>>)
+                                THEN (IF r.reject THEN {} ELSE {<<"valid_document_rejected", r.g.err, r.g.msg>>})
+                                ELSE (IF r.reject THEN {<<"helper_name_clash_accepted">>} ELSE {})
+                                     \cup BuilderDefects(r.doc, r.g)])>>)
 =============================================================================
